@@ -71,7 +71,9 @@ impl<'a, 'b> Syn<'a, 'b> {
 
     pub fn number(&mut self) -> Expr {
         let luau = self.o.luau;
-        let pool: [(&str, f64); 20] = [
+        let pool: [(&str, f64); 22] = [
+            ("1e999", f64::INFINITY),
+            ("1e309", f64::INFINITY),
             ("0", 0.0),
             ("1", 1.0),
             ("2", 2.0),
@@ -104,7 +106,11 @@ impl<'a, 'b> Syn<'a, 'b> {
     }
 
     pub fn string(&mut self) -> Expr {
-        let pool: [(&str, &[u8]); 20] = [
+        let pool: [(&str, &[u8]); 24] = [
+            ("[[\n\nsecond]]", b"\nsecond"),
+            ("[[a\r\nb]]", b"a\nb"),
+            ("[=[\r\nfirst\r\n]=]", b"first\n"),
+            ("[[\n]]", b""),
             ("\"\\255\"", b"\xff"),
             ("'\\254\\255'", b"\xfe\xff"),
             ("\"\\0011\"", b"\x011"),
@@ -316,6 +322,19 @@ impl<'a, 'b> Syn<'a, 'b> {
         ];
         match self.t.weighted(&w) {
             0 => self.leaf(),
+            1 if self.t.bool(20) => {
+                // numbers inside a concatenation chain: the text around `..` must keep them numbers
+                self.stat("number_in_concat_chain");
+                let a = if self.t.bool(128) { self.expr(d - 1) } else { self.number() };
+                let m = self.number();
+                let b = if self.t.bool(128) { self.expr(d - 1) } else { self.number() };
+                if self.t.bool(128) {
+                    // written `a .. m .. b` (right associative)
+                    Expr::Binary(BinOp::Concat, Box::new(a), Box::new(Expr::Binary(BinOp::Concat, Box::new(m), Box::new(b))))
+                } else {
+                    Expr::Binary(BinOp::Concat, Box::new(Expr::Binary(BinOp::Concat, Box::new(a), Box::new(m))), Box::new(b))
+                }
+            }
             1 => {
                 let mut ops: Vec<BinOp> = BinOp::ALL.to_vec();
                 if !luau {
